@@ -11,7 +11,7 @@ R6.3  fixed buffers: every write into a local array is bounded by dominating gua
 R6.5  writes (shared with C14 R14.2)          R6.6 abort/assert sites are exactly the known ones
 R6.7  allocation pairing                      R6.8 loops: progress and no hidden quadratic libc call"""
 import re
-import unitdb, cfgpaths, astutil, scanex, forkmap
+import tables, unitdb, cfgpaths, astutil, scanex, forkmap
 from scanex import END
 from rules import shared, emailfn, eavobj, lp
 from rules.eavobj import BACKENDS
@@ -54,6 +54,15 @@ class Prov:
         if m:
             c = [e for e in p.events[:i] if e[0] == 'call' and e[3] == X]
             if c and len(c[0][2]) >= 2 and c[0][2][1] not in ("'\\x00'", '0') and (p.passed(X, True, before=i) or self.counted(X, c[0], p, i)): return True
+        ml = re.fullmatch(r"(\w+)@L\d+'*", X)
+        if ml and (p.passed(X, True, before=i) or p.passed(f'({X} != NULL)', True, before=i) or p.passed(f'({X} == NULL)', False, before=i)):
+            # a loop-carried pointer that is only ever given results of searches for a non-NUL byte, and is non-NULL here
+            vals = self.assigned.get(ml.group(1), [])
+            def search_result(q, j, v):
+                if v == 'NULL' or re.fullmatch(r"\w+@L\d+'*", v): return True
+                c = [e for e in q.events[:j + 1] if e[0] == 'call' and e[3] == v]
+                return bool(c) and c[0][1] in ('strchr', 'strrchr', 'memchr') and len(c[0][2]) >= 2 and c[0][2][1] not in ("'\\x00'", '0')
+            if vals and all(search_result(q, j, v) for q, j, v in vals): return True
         for e in p.events[:i]:
             if e[0] != 'cond': continue
             mm = re.fullmatch(r"\(\*" + re.escape(X) + r" (==|!=) ('.'|'\\x..')\)", e[1])
@@ -101,17 +110,24 @@ class Prov:
             # inductive: assume the variable is safe at the loop head while checking every value it is ever assigned
             v0 = m.group(1)
             if v0 in self.assuming: return True
-            if v0 in self.proved: return self.proved[v0]
+            if (v0, X, id(p), i) in self.proved: return self.proved[(v0, X, id(p), i)]
             self.assuming.add(v0)
             try:
                 vals = self.assigned.get(v0, [])
                 seen = set(); ok = bool(vals)
+                # "in the string, or NULL": a search result stored before its NULL test is fine when the use site has
+                # established that the loop-carried pointer is not NULL
+                tested = p.passed(X, True, before=i) or p.passed(f'({X} != NULL)', True, before=i) or p.passed(f'({X} == NULL)', False, before=i)
                 for q, j, v in vals:
                     if v == 'NULL' or re.fullmatch(r"\w+@L\d+'*", v): continue
+                    cs = [e for e in q.events[:j + 1] if e[0] == 'call' and e[3] == v]
+                    if tested and cs and cs[0][1] in SEARCH:
+                        if not self.safe(cs[0][2][0], q, q.events.index(cs[0]), depth + 1): ok = False; break
+                        continue
                     if not self.safe(v, q, j, depth + 1): ok = False; break
             finally:
                 self.assuming.discard(v0)
-            if not self.assuming: self.proved[v0] = ok
+            if not self.assuming: self.proved[(v0, X, id(p), i)] = ok
             return ok
         b, k = shared.ptr_off(X)
         if b != X and k > 0:
@@ -432,7 +448,8 @@ def run(ck):
             loops = [l for l in loops if not (l['kind'] == 'DoStmt' and strip_zero(l))]
             for l in loops:
                 site = f'{key}:{fname}:loop@{astutil.line_of(l)}'
-                inner = [(nm, c) for nm, c in astutil.calls_in(l) if nm in LIN]
+                init_calls = {id(c) for nm, c in astutil.calls_in(l['inner'][0])} if l['kind'] == 'ForStmt' and l['inner'][0] and l['inner'][0].get('kind') else set()
+                inner = [(nm, c) for nm, c in astutil.calls_in(l) if nm in LIN and id(c) not in init_calls]      # the for-init runs once
                 scanner = fname in ('is_822_local', 'is_5321_local', 'is_5322_local', 'is_6531_local', 'is_ascii_domain', 'is_ipv4', 'is_ipv6')
                 ok = True; why = ''
                 if scanner:
@@ -448,7 +465,7 @@ def run(ck):
                         if not any(k in txt for k in ('++', '--', '=BinaryOperator', 'CompoundAssign')): ok = False; why = 'loop without an induction update'
                         for nm, c in inner:
                             eng = cfgpaths.Engine(tu, fname); args = [eng.render(a, cfgpaths.Path()) for a in c['inner'][1:]]
-                            if nm == 'strchr' and args[0] == 'cp': continue                                  # amortised: cp moves past the result
+                            if nm in ('strchr', 'memchr') and amortised_search(tu, fname, l, c): continue    # amortised: the searched pointer moves past each result
                             if nm in ('strncasecmp', 'strncmp', 'memcmp') and len(args) == 3 and re.search(r'\.length$|->length$', args[2]): continue   # bounded by a table entry
                             if nm in ('strncasecmp', 'strncmp', 'memcmp', 'strcmp', 'strcasecmp') and const_trip_loop(tu, fname, l): continue              # a constant number of bounded comparisons
                             if nm in ('strncasecmp', 'strncmp', 'strcmp', 'strcasecmp') and any(re.search(r'(->|\.)domain$', a) for a in args[:2]): continue     # one operand is a table entry (a short constant string): the comparison stops at its terminator
@@ -517,6 +534,17 @@ def run(ck):
                                 cond = l['inner'][2] if len(l['inner']) > 2 else None
                                 if not cond or not cond.get('kind'): continue
                                 cs = eng.render(cond, cfgpaths.Path())
+                                ms = re.fullmatch(r'\(?' + re.escape(G) + r'\[' + re.escape(v) + r'\](?:\.|->)\w+(?: != (?:NULL|0))?\)?', cs)
+                                if ms and sentinel_terminated(tus, G):
+                                    # sentinel scan: the loop stops at the all-zero last row, which the table is checked to have
+                                    writes = [w for w in astutil.walk(l['inner'][-1]) if (w.get('kind') in ('BinaryOperator', 'CompoundAssignOperator') and (w.get('opcode') == '=' or w.get('kind') == 'CompoundAssignOperator') and astutil.strip(w['inner'][0]).get('kind') == 'DeclRefExpr' and astutil.strip(w['inner'][0])['referencedDecl']['name'] == v) or (w.get('kind') == 'UnaryOperator' and w.get('opcode') in ('++', '--') and astutil.strip(w['inner'][0]).get('kind') == 'DeclRefExpr' and astutil.strip(w['inner'][0])['referencedDecl']['name'] == v)]
+                                    inc = l['inner'][3] if len(l['inner']) > 3 else None
+                                    init0 = any(d.get('kind') == 'VarDecl' and d.get('name') == v and any(x.get('kind') == 'IntegerLiteral' and int(x['value']) == 0 for x in astutil.walk(d)) for d in astutil.walk(l['inner'][0])) if l['inner'][0] else False
+                                    if not init0 and l['inner'][0] and l['inner'][0].get('kind') == 'BinaryOperator':
+                                        init0 = eng.render(l['inner'][0]['inner'][1], cfgpaths.Path()) == '0' and eng.render(l['inner'][0]['inner'][0], cfgpaths.Path(), lvalue=True) == v
+                                    ok = (not writes) and bool(inc) and inc.get('kind') == 'UnaryOperator' and inc.get('opcode') == '++' and init0
+                                    why = f'{G}[{v}] in a sentinel scan' + ('' if ok else ' whose index is not a plain 0, 1, 2, ... walk')
+                                    break
                                 m = re.fullmatch(r'\(' + re.escape(v) + r' (<|<=) (\d+)\)', cs)
                                 if not m: continue
                                 K = int(m.group(2)) + (1 if m.group(1) == '<=' else 0)
@@ -542,6 +570,37 @@ def run(ck):
     c14.run(ck)
     ck.undecided('signed overflow of counters for inputs above 2^31 bytes; ptrdiff to int narrowing beyond INT_MAX; anything inside libidn2 / libc; "64 KiB inputs run in linear time" is argued from one-pass progress, not measured')
     ck.assume('NUL-terminated input with length == strlen (statement); allocation failure aside')
+
+
+def amortised_search(tu, fname, loop, call):
+    """strchr(P..., c) inside a loop whose searched pointer is advanced from the search's own result (ch = strchr(cp, c);
+    cp = ch + 1;  or  for (dot = strchr(s, c); dot; dot = strchr(dot + 1, c))): every byte is visited once overall"""
+    eng = cfgpaths.Engine(tu, fname)
+    def names(n): return {m['referencedDecl']['name'] for m in astutil.walk(n) if m.get('kind') == 'DeclRefExpr' and m['referencedDecl'].get('kind') in ('VarDecl', 'ParmVarDecl')}
+    argvars = names(call['inner'][1])
+    assigns = []           # (target, vars of the right-hand side, rhs contains this call)
+    for m in astutil.walk(loop):
+        if m.get('kind') == 'BinaryOperator' and m.get('opcode') == '=' and astutil.strip(m['inner'][0]).get('kind') == 'DeclRefExpr':
+            assigns.append((astutil.strip(m['inner'][0])['referencedDecl']['name'], names(m['inner'][1]), any(x is call for x in astutil.walk(m['inner'][1]))))
+        if m.get('kind') == 'VarDecl' and m.get('inner'):
+            assigns.append((m['name'], names(m), any(x is call for x in astutil.walk(m))))
+    results = {t for t, vs, has in assigns if has}
+    if not results: return False
+    if argvars & results: return True                                   # dot = strchr(dot + 1, c)
+    for t, vs, has in assigns:
+        if t in argvars and vs & results: return True                   # cp = ch + 1 with ch = strchr(cp, c)
+    return False
+
+
+def sentinel_terminated(tus, G):
+    """the table G is defined with an initialiser whose last row is all NULL / 0"""
+    for key, tu in tus.items():
+        d = tu.globals.get(G)
+        if d is None or not any(c.get('kind') == 'InitListExpr' for c in d.get('inner', [])): continue
+        try: var, rows = tables.global_table(tu, G, keep_names=True)
+        except Exception: return False
+        return bool(rows) and all(x in (None, 0, '0') for x in rows[-1])
+    return False
 
 
 def const_trip_loop(tu, fname, l):
